@@ -1,9 +1,28 @@
-//! Harness group `lib`: C17 (path summaries) over the real `watchexec` crate (real dependencies;
-//! nothing asynchronous is reachable from these harnesses).
+//! Harness group `lib`: synchronous seams of the real `watchexec` crate.
+//!
+//! * C15: `ErrorHook::{new, critical, elevate, handle_crit}` driven exactly as the body of
+//!   `error_hook` drives them, with the real `ChangeableFn<ErrorHook, ()>` as the handler.
+//! * C13: `Changeable` / `ChangeableFn` / `ChangeableFilterer` / `Config` setters.
+//! * C02: `Priority` order, `Event::is_empty`.
+//! * `c17.rs`: the C17 measurement (not registered; kept as the measurement's source).
+//!
+//! Real `tokio` (only `Notify::{new, notify_waiters}` is executed); `tracing` is cut to no-ops by
+//! `[patch.crates-io]` (models under /verif/models). Nothing asynchronous is polled.
 #![cfg(kani)]
+#![feature(variant_count)]
+#![feature(allocator_api)]
 #![allow(clippy::all)]
 
+pub mod util;
+pub mod c02;
+pub mod c13;
+pub mod c15;
 pub mod c17;
+pub mod probe;
+
+pub use c02::*;
+pub use c13::*;
+pub use c15::*;
 pub use c17::*;
 
 mod playback {
